@@ -1,6 +1,6 @@
 (* The implementation model satisfies the executable checkers ok_C05 / ok_C16 on every history
    (ties the boolean checkers, which judge the REAL observations, to the Prop-level theorems). *)
-From VM Require Import Prelude.MachInt Prelude.Tok Impl.Dirty Spec.C05 Suite.C05 Proofs.C05.
+From VM Require Import Prelude.MachInt Prelude.Tok Impl.Dirty Spec.C05 Suite.C05 Proofs.C05 Proofs.C05Order.
 
 Definition view1 (r : region) : list bool :=
   (if r_tracked r then r_dirty r else map (fun _ => false) (r_dirty r)) ++ [false; false].
@@ -108,8 +108,11 @@ Qed.
 Lemma step_ok_C05 hm rs s rs' out : wf rs -> is_reset s = false -> run_step hm rs s = (rs', out) ->
   ok_C05_step (kind_of s) (map geom_of rs) (view rs) (obs_of rs' out) = true.
 Proof.
-  intros Hwf Hr H. destruct (step_effs hm rs s rs' out Hwf Hr H) as [-> Hok].
-  set (es := o_effs out) in *. unfold ok_C05_step, obs_of. cbn [s_dirty s_changed].
+  intros Hwf Hr H. pose proof (late_of_step_zero hm rs s rs' out Hwf H) as Hlate.
+  destruct (step_effs hm rs s rs' out Hwf Hr H) as [-> Hok].
+  set (es := o_effs out) in *. unfold ok_C05_step, obs_of. cbn [s_dirty s_changed s_late]. fold es. rewrite Hlate.
+  assert (X : match kind_of s with KReset => true | _ => 0 =? 0 end = true) by (destruct (kind_of s); reflexivity).
+  rewrite X. cbn [andb]. clear X Hlate.
   change (map (fun r => (if r_tracked r then r_dirty r else map (fun _ => false) (r_dirty r)) ++ [false; false]) (apply_effs rs es))
     with (view (apply_effs rs es)).
   rewrite length_apply_effs, runs_of_seq.
@@ -282,7 +285,9 @@ Lemma any_step_ok_C05 hm rs s rs' out : wf rs -> run_step hm rs s = (rs', out) -
   ok_C05_step (kind_of s) (map geom_of rs) (view rs) (obs_of rs' out) = true.
 Proof.
   intros Hwf H. destruct (is_reset s) eqn:Hr; [|eapply step_ok_C05; eauto].
-  unfold ok_C05_step, obs_of. cbn [s_dirty s_changed].
+  unfold ok_C05_step, obs_of. cbn [s_dirty s_changed s_late].
+  assert (X : kind_of s = KReset) by (destruct s; try discriminate; reflexivity).
+  rewrite X. cbn [andb]. rewrite <- X.
   apply (reset_step_ok ok_C05_region hm rs s rs' out Hwf Hr H).
   intros r r' _ _. unfold ok_C05_region. destruct (negb _); reflexivity.
 Qed.
